@@ -230,7 +230,7 @@ func (o c12Obj) paths() []string {
 
 // resource templates ------------------------------------------------------------------
 
-func podSpec(g *Rng, cms, secrets, sas []string, useVars bool) *yaml.Node {
+func c12PodSpec(g *Rng, cms, secrets, sas []string, useVars bool) *yaml.Node {
 	nCont := 1 + g.Intn(2)
 	conts := yl()
 	for i := 0; i < nCont; i++ {
@@ -349,33 +349,33 @@ func (gen *c12Gen) genResources(g *Rng, suffix string, useVars bool) ([]*yaml.No
 		deps = append(deps, n)
 		add("apps/v1", "Deployment", n, "metadata", meta(n, ns, lbl, g),
 			"spec", ym("replicas", yi(1+g.Intn(3)), "selector", ym("matchLabels", ymss(lbl)),
-				"template", ym("metadata", ym("labels", ymss(lbl)), "spec", podSpec(g, cms, secrets, sas, useVars))))
+				"template", ym("metadata", ym("labels", ymss(lbl)), "spec", c12PodSpec(g, cms, secrets, sas, useVars))))
 	}
 	if g.Chance(30) {
 		n := "sts" + suffix
 		add("apps/v1", "StatefulSet", n, "metadata", meta(n, ns, lbl, g),
 			"spec", ym("serviceName", ys("svc"+suffix), "replicas", yi(2), "selector", ym("matchLabels", ymss(lbl)),
-				"template", ym("metadata", ym("labels", ymss(lbl)), "spec", podSpec(g, cms, secrets, sas, false)),
+				"template", ym("metadata", ym("labels", ymss(lbl)), "spec", c12PodSpec(g, cms, secrets, sas, false)),
 				"volumeClaimTemplates", yl(ym("metadata", ym("name", ys("data")), "spec", ym("accessModes", ystrs("ReadWriteOnce"), "resources", ym("requests", ym("storage", ys("1Gi"))))))))
 	}
 	if g.Chance(20) {
 		n := "ds" + suffix
 		add("apps/v1", "DaemonSet", n, "metadata", meta(n, ns, lbl, g),
-			"spec", ym("selector", ym("matchLabels", ymss(lbl)), "template", ym("metadata", ym("labels", ymss(lbl)), "spec", podSpec(g, cms, secrets, sas, false))))
+			"spec", ym("selector", ym("matchLabels", ymss(lbl)), "template", ym("metadata", ym("labels", ymss(lbl)), "spec", c12PodSpec(g, cms, secrets, sas, false))))
 	}
 	if g.Chance(20) {
 		n := "job" + suffix
 		add("batch/v1", "Job", n, "metadata", meta(n, ns, nil, g),
-			"spec", ym("template", ym("spec", podSpec(g, cms, secrets, sas, false))))
+			"spec", ym("template", ym("spec", c12PodSpec(g, cms, secrets, sas, false))))
 	}
 	if g.Chance(20) {
 		n := "cron" + suffix
 		add("batch/v1", "CronJob", n, "metadata", meta(n, ns, nil, g),
-			"spec", ym("schedule", ys("*/5 * * * *"), "jobTemplate", ym("spec", ym("template", ym("spec", podSpec(g, cms, secrets, sas, false))))))
+			"spec", ym("schedule", ys("*/5 * * * *"), "jobTemplate", ym("spec", ym("template", ym("spec", c12PodSpec(g, cms, secrets, sas, false))))))
 	}
 	if g.Chance(20) {
 		n := "pod" + suffix
-		add("v1", "Pod", n, "metadata", meta(n, ns, lbl, g), "spec", podSpec(g, cms, secrets, sas, false))
+		add("v1", "Pod", n, "metadata", meta(n, ns, lbl, g), "spec", c12PodSpec(g, cms, secrets, sas, false))
 	}
 	if g.Chance(60) {
 		n := "svc" + suffix
